@@ -38,7 +38,13 @@ theorem sedov_ambient_sing (p : SedovRunSing.P) (r t : ℝ) (ht : 0 < t)
   have h1 : ¬ SedovRunSing.c1 p r t := by rw [runSing_c1]; exact not_le.mpr hr
   unfold IsAmbient ambientDensity
   simp only [epv_tree, h0, h1, if_false]
-  split_ifs <;> simp only [epv_leaf, mul_zero, zero_div, Real.zero_rpow half_ne, and_self]
+  -- on every remaining leaf: unfold, then each component up to normalisation (ρ₀ r^(-ω) however the product is
+  -- written; the zero fields through `0 * x = 0`, `0 / x = 0`, `0 ^ (1/2) = 0`)
+  split_ifs <;> simp only [epv_leaf] <;> (repeat' apply And.intro) <;>
+    first
+    | trivial
+    | epv_semi_eq
+    | (simp only [mul_zero, zero_mul, zero_div, Real.zero_rpow half_ne] <;> first | done | epv_semi_eq)
 
 /-- standard solution type.  `hR`: the shock radius is not negative (true for every admissible
 problem, `EPV.C11.r2_pos`; for a negative r2 — impossible in real arithmetic with
@@ -57,7 +63,13 @@ theorem sedov_ambient_std (p : SedovRunStd.P) (r t : ℝ) (ht : 0 < t)
   have h3 : SedovRunStd.c3 p r t := by rw [runStd_c3]; exact hR
   unfold IsAmbient ambientDensity
   simp only [epv_tree, h0, h1, h3, if_false, if_true]
-  split_ifs <;> simp only [epv_leaf, mul_zero, zero_div, Real.zero_rpow half_ne, and_self]
+  -- on every remaining leaf: unfold, then each component up to normalisation (ρ₀ r^(-ω) however the product is
+  -- written; the zero fields through `0 * x = 0`, `0 / x = 0`, `0 ^ (1/2) = 0`)
+  split_ifs <;> simp only [epv_leaf] <;> (repeat' apply And.intro) <;>
+    first
+    | trivial
+    | epv_semi_eq
+    | (simp only [mul_zero, zero_mul, zero_div, Real.zero_rpow half_ne] <;> first | done | epv_semi_eq)
 
 /-- vacuum solution type -/
 theorem sedov_ambient_vac (p : SedovRunVac.P) (r t : ℝ) (ht : 0 < t)
@@ -70,7 +82,13 @@ theorem sedov_ambient_vac (p : SedovRunVac.P) (r t : ℝ) (ht : 0 < t)
   have h1 : ¬ SedovRunVac.c1 p r t := by rw [runVac_c1]; exact not_le.mpr hr
   unfold IsAmbient ambientDensity
   simp only [epv_tree, h0, h1, if_false]
-  split_ifs <;> simp only [epv_leaf, mul_zero, zero_div, Real.zero_rpow half_ne, and_self]
+  -- on every remaining leaf: unfold, then each component up to normalisation (ρ₀ r^(-ω) however the product is
+  -- written; the zero fields through `0 * x = 0`, `0 / x = 0`, `0 ^ (1/2) = 0`)
+  split_ifs <;> simp only [epv_leaf] <;> (repeat' apply And.intro) <;>
+    first
+    | trivial
+    | epv_semi_eq
+    | (simp only [mul_zero, zero_mul, zero_div, Real.zero_rpow half_ne] <;> first | done | epv_semi_eq)
 
 /-- non-vacuity: default spherical problem at t = 1, α = 851072/1000000 (so r2 = 1), r = 2 -/
 example : ∃ (p : SedovRunSing.P) (r t : ℝ), 0 < t ∧ SedovShock.r2 (singToShock p) t < r := by
